@@ -14,7 +14,7 @@ both problem kinds, coordinate flips, shrink, unshrink).
 Helper lemmas: `Lemmas/Smo.lean` (invariant, flips, shrink/unshrink), `Lemmas/SmoStep.lean` (SMO steps),
 `Lemmas/SmoObjective.lean` (dual objective), `Lemmas/Box2d.lean` (shape of the generated 2-D box solver).
 -/
-import SharkVerif.Lemmas.SmoObjective
+import SharkVerif.Lemmas.Shrink
 import Mathlib.Tactic.FieldSimp
 namespace SharkVerif.C08
 open SharkVerif.Qp SharkVerif.Gen.Analytic SharkVerif.Smo
@@ -484,5 +484,56 @@ example : ∃ s : RS, Inv s ∧ (∀ x, s.K x x = 0 ∨ 1 / 1000000000000 ≤ s.
    ⟨⟨by decide, by decide, fun h => by simp [State.init] at h⟩,
     ⟨by show 0 < (State.updateSMO _ 0 1).active; rw [updateSMO_active]; decide,
      by show 0 < (State.updateSMO _ 0 1).active; rw [updateSMO_active]; decide, fun _ => le_refl _⟩, trivial⟩⟩
+
+
+/-! ## 5. Shrinking is sound -/
+
+/-- **shrink_sound (one test)**: in any state that satisfies the invariant, with any bounds `largestUp` / `smallestDown`
+that are valid for the active variables (`Bounds`; `getMaxKKTViolations` computes such bounds, `bounds_maxKKT`), a
+variable for which `testShrinkVariable` answers "shrink" cannot take part in an improving step at that moment:
+* equality-constrained problem (`NoGainSvm`): EVERY feasible sum-preserving two-variable move of non-zero length that
+  involves it, with any active partner and non-negative curvature along the move (true for PSD `K`), strictly
+  decreases the dual objective -- exact second-order statement, not only first order;
+* box problem (`NoGainBox`): every feasible move of the variable has a strictly negative first-order effect (alone or
+  as part of a joint move), and moving it alone strictly decreases the dual objective when `K_aa ≥ 0`. -/
+theorem shrink_sound_step {s : RS} (h : Inv s) {lu sd : Rat} (hB : Bounds s lu sd) {a : Nat} (ha : a < s.active)
+    (ht : s.testShrink a lu sd = true) :
+    (s.eqc = true → NoGainSvm s a) ∧ (s.eqc = false → NoGainBox s a) :=
+  ⟨fun he => noGain_svm h he hB ha ht, fun he => noGain_box h he ha ht⟩
+
+/-- **shrink_sound**: `shrink(eps)` (with its optional internal unshrink and the re-computation of the bounds) is the
+back-to-front loop started in `shrinkStart s eps`; `removals` lists the states and variables at which that loop removes
+a variable (`shrinkGo_active`: one per decrement of `active`), and at EVERY such moment the invariant holds, the
+bounds computed before the loop are still valid for the remaining active variables, and the removed variable cannot
+take part in an improving step (`NoGainSvm` / `NoGainBox` as in `shrink_sound_step`).  Hence shrinking never removes
+a variable that could improve the objective at that moment; that the optimum is unchanged is C07
+`stopped_near_optimal_svm/_box`, which holds for the reported state after ANY history (`reachable_inv`). -/
+theorem shrink_sound {s : RS} (h : Inv s) (eps : Rat) (hs : s.shrinkOn = true) :
+    let st := shrinkStart s eps
+    (s.shrink eps).1 = State.shrinkGo st.2.1 st.2.2 st.1.active st.1 ∧
+    (State.shrinkGo st.2.1 st.2.2 st.1.active st.1).active + (removals st.2.1 st.2.2 st.1.active st.1).length
+      = st.1.active ∧
+    ∀ p, p ∈ removals st.2.1 st.2.2 st.1.active st.1 →
+      Inv p.1 ∧ p.2 < p.1.active ∧ (s.eqc = true → NoGainSvm p.1 p.2) ∧ (s.eqc = false → NoGainBox p.1 p.2) := by
+  intro st
+  obtain ⟨hI, hs', he, hB⟩ := shrinkStart_spec h eps hs
+  refine ⟨shrink_eq s eps hs, shrinkGo_active _ _ _ _ (Nat.le_refl _), ?_⟩
+  intro p hp
+  obtain ⟨h1, h2, h3, h4, h5⟩ := removals_spec st.2.1 st.2.2 st.1.active st.1 hI hs' (Nat.le_refl _) hB p hp
+  have hpe : p.1.eqc = s.eqc := h5.trans he
+  exact ⟨h1, h2, fun e => noGain_svm h1 (hpe.trans e) h3 h2 h4, fun e => noGain_box h1 (hpe.trans e) h2 h4⟩
+
+/-- non-vacuity of `shrink_sound_step`: two variables, box `[0,1]`, `lin = (−1, 1)`, cold start: variable 0 sits at its
+lower bound with negative gradient and passes the shrink test -/
+example : ∃ (s : RS) (lu sd : Rat) (a : Nat), Inv s ∧ s.shrinkOn = true ∧ Bounds s lu sd ∧ a < s.active ∧
+    s.testShrink a lu sd = true := by
+  refine ⟨State.init 2 (fun a b => if a = b then 1 else 0) false true (fun k => if k = 0 then -1 else 1)
+    (fun _ => 0) (fun _ => 1), 1, 0, 0, init_inv 2 _ false true _ _ _ ?_ (fun _ _ => by norm_num), rfl, ?_, by decide, ?_⟩
+  · intro x y; by_cases hxy : x = y <;> simp [hxy, eq_comm]
+  · intro b _
+    constructor
+    · intro _; simp only [State.init]; split <;> norm_num
+    · intro hl; simp [State.init, lit0] at hl
+  · simp [State.testShrink, State.init, smin, lit0]
 
 end SharkVerif.C08
